@@ -8,7 +8,7 @@
    streams without entries, any label bytes). *)
 From Coq Require Import List ZArith NArith Bool Ascii String Lia.
 From Coq Require Permutation.
-From Qryn Require Import gen.DecodeConsts model.Decode proofs.DecodeProofs model.LokiLabels proofs.LokiLabelsProofs model.LokiTime proofs.LokiTimeProofs model.LokiJson proofs.LokiJsonProofs model.DatadogJson proofs.DatadogJsonProofs model.NdjsonWalk proofs.NdjsonWalkProofs.
+From Qryn Require Import gen.DecodeConsts model.Decode proofs.DecodeProofs model.LokiLabels proofs.LokiLabelsProofs model.LokiTime proofs.LokiTimeProofs model.LokiJson proofs.LokiJsonProofs model.DatadogJson proofs.DatadogJsonProofs model.NdjsonWalk proofs.NdjsonWalkProofs model.ReqOpts proofs.ReqOptsProofs.
 Import ListNotations.
 Open Scope Z_scope.
 
@@ -605,3 +605,79 @@ Example datadog_metric_points_without_timestamp_computed :
   map e_ts (entries_ddmet (CK 0 9 [4; 4]) [DS (Some "m"%string) [] [(1700000000, 7%N); (1700000000, 8%N)] [5%N; 6%N]]) = [4; 4; 1700000000000000000; 1700000000000000000].
 Proof. vm_compute. split; reflexivity. Qed.
 
+
+(* ---------------------------------------------------------------- the request options in front of the decoders (model/ReqOpts.v)
+   Round 8.  ctx_ttl and the Influx precision were numbers given to the decoder model; here they are what
+   WithOverallContextMiddleware reads from the X-Ttl-Days header text (strconv.ParseUint(., 10, 16), unreadable = none) and what
+   PushInfluxV2 reads from the precision parameter ("" | ns | us | ms | s, anything else = 400 before the parser starts). *)
+
+(* a header written as the decimal digits of a number up to 65535, with any number of leading zeros, is read as exactly
+   that number *)
+Theorem ttl_header_read_exactly :
+  forall ds, ds <> [] -> all_digits ds = true -> digits_value ds <= 65535 ->
+  ttl_of_header (digits_text ds) = Z.to_N (digits_value ds).
+Proof. exact ttl_header_read_l. Qed.
+Print Assumptions ttl_header_read_exactly.
+
+(* and nothing else gives a TTL: a request carries a TTL of its own only when its header text is such a digit text (no
+   sign, no blank, no underscore, no hex, not above 65535) - every other text is "no TTL", never another number *)
+Theorem ttl_header_only_from_numbers :
+  forall h, ttl_of_header h <> 0%N ->
+  exists ds, ds <> [] /\ all_digits ds = true /\ h = digits_text ds /\ 0 < digits_value ds <= 65535 /\
+             ttl_of_header h = Z.to_N (digits_value ds).
+Proof. exact ttl_header_only_from_numbers_l. Qed.
+Print Assumptions ttl_header_only_from_numbers.
+
+(* the precision parameter: exactly the five spellings are accepted, each with its own unit *)
+Theorem precision_parameter_read_exactly :
+  forall q p, precision_of_query q = Some p <-> exists u, q = punit_text u /\ p = punit_ns u.
+Proof.
+  intros q p. split; [apply precision_only_units_l|]. intros [u [A B]]. subst. apply precision_read_l.
+Qed.
+Print Assumptions precision_parameter_read_exactly.
+
+(* any push route, any protocol: under a header written from the number n the body is answered with one faithful row per
+   entry under TTL n (for n > 0 every row carries exactly n, whatever __ttl_days__ labels say) *)
+Theorem push_request_with_ttl_header_is_faithful :
+  forall fp enc_len CS cache_add cache0 threshold flush_limit ds (b : body),
+  ds <> [] -> all_digits ds = true -> digits_value ds <= 65535 ->
+  exists cs, push_request fp enc_len CS cache_add cache0 threshold flush_limit (digits_text ds) b = Done cs /\
+             Forall chunk_rect cs /\ rows_of cs = rows_spec fp (Z.to_N (digits_value ds)) (entries_of b) /\
+             (0 < digits_value ds -> Forall (fun r => r_ttl r = Z.to_N (digits_value ds)) (rows_of cs)).
+Proof.
+  intros fp enc_len CS cache_add cache0 threshold flush_limit ds b H1 H2 H3.
+  destruct (push_request_faithful_l fp enc_len CS cache_add cache0 threshold flush_limit ds b H1 H2 H3) as [cs [A [B C]]].
+  exists cs. split; [exact A|split; [exact B|split; [exact C|]]].
+  intro G. rewrite C. apply rows_spec_ctx_ttl. lia.
+Qed.
+Print Assumptions push_request_with_ttl_header_is_faithful.
+
+(* a header that is no such digit text (absent, empty, signed, blank-padded, out of range ...) leaves the request without a
+   TTL of its own: the rows are those of the body with the TTL of each stream's own __ttl_days__ label *)
+Theorem push_request_with_unreadable_ttl_header_is_faithful :
+  forall fp enc_len CS cache_add cache0 threshold flush_limit h (b : body),
+  (forall ds, ds <> [] -> all_digits ds = true -> digits_value ds <= 65535 -> h <> digits_text ds) ->
+  exists cs, push_request fp enc_len CS cache_add cache0 threshold flush_limit h b = Done cs /\
+             Forall chunk_rect cs /\ rows_of cs = rows_spec fp 0%N (entries_of b).
+Proof. exact push_request_unreadable_l. Qed.
+Print Assumptions push_request_with_unreadable_ttl_header_is_faithful.
+
+(* the Influx route as a whole: header written from n, precision written as one of the five spellings, any clock, any
+   lines: accepted, one faithful row per entry with the line's timestamp scaled by exactly that unit and TTL n *)
+Theorem influx_request_with_options_is_faithful :
+  forall fp enc_len CS cache_add cache0 threshold flush_limit ds (u : punit) (ck : clock) (lines : list iline),
+  ds <> [] -> all_digits ds = true -> digits_value ds <= 65535 ->
+  exists cs, influx_request fp enc_len CS cache_add cache0 threshold flush_limit (digits_text ds) (punit_text u) ck lines
+             = Parsed (Done cs) /\
+             Forall chunk_rect cs /\
+             rows_of cs = rows_spec fp (Z.to_N (digits_value ds)) (entries_influx (punit_ns u) ck lines).
+Proof. exact influx_request_faithful_l. Qed.
+Print Assumptions influx_request_with_options_is_faithful.
+
+(* any other precision text is refused before a single line is decoded (no rows under a guessed unit) *)
+Theorem influx_request_with_unknown_precision_is_refused :
+  forall fp enc_len CS cache_add cache0 threshold flush_limit h q (ck : clock) (lines : list iline),
+  (forall u, q <> punit_text u) ->
+  influx_request fp enc_len CS cache_add cache0 threshold flush_limit h q ck lines = Refused400.
+Proof. exact influx_request_refused_l. Qed.
+Print Assumptions influx_request_with_unknown_precision_is_refused.
